@@ -46,10 +46,10 @@ type decProtoCase struct {
 	Fmt    string `json:"fmt"` // p1, p2
 	Prefix []int  `json:"prefix,omitempty"`
 	Depth  int    `json:"depth,omitempty"`
-	Seq    []int  `json:"seq,omitempty"`  // replay
+	Seq    []int  `json:"seq,omitempty"`   // replay
 	Fault  bool   `json:"fault,omitempty"` // error-path alphabet (see dpFaultAlphabet)
-	Ref    bool   `json:"ref,omitempty"`  // PAR1: the set is written by the independent reference writer (comment in the index, an entry not saved in the parity set between the saved ones, a zero-length file) instead of by gopar's Create
-	Disk   bool   `json:"disk,omitempty"` // exported constructors on a real directory (else: the same objects on the owned in-memory filesystem)
+	Ref    bool   `json:"ref,omitempty"`   // PAR1: the set is written by the independent reference writer (comment in the index, an entry not saved in the parity set between the saved ones, a zero-length file) instead of by gopar's Create
+	Disk   bool   `json:"disk,omitempty"`  // exported constructors on a real directory (else: the same objects on the owned in-memory filesystem)
 }
 
 const (
